@@ -23,6 +23,8 @@ Lemma Zq_minus a b : Zq (a - b) == Zq a - Zq b.
 Proof. unfold Z.sub. rewrite Zq_plus, Zq_opp. ring. Qed.
 Lemma Zq_le a b : (a <= b)%Z <-> Zq a <= Zq b.
 Proof. unfold Zq. rewrite Zle_Qle. tauto. Qed.
+Lemma Zq_le1 a b : (a <= b)%Z -> Zq a <= Zq b.
+Proof. apply Zq_le. Qed.
 Lemma Zq_lt a b : (a < b)%Z <-> Zq a < Zq b.
 Proof. unfold Zq. rewrite Zlt_Qlt. tauto. Qed.
 
@@ -519,4 +521,175 @@ Proof.
   set (cx := fst (center_world g)). set (cy := snd (center_world g)).
   transitivity ((c * c + s * s) * ((x1 - x2) * (x1 - x2) + (y1 - y2) * (y1 - y2))); [ring|].
   rewrite H. ring.
+Qed.
+
+(** * Indexing *)
+Lemma getitem_int_is_tuple g i : getitem g (RInt i) = getitem g (RTup [SInt i; full_slice]).
+Proof. reflexivity. Qed.
+
+Lemma getitem_slice_is_tuple g a b st : getitem g (ROne a b st) = getitem g (RTup [SSl a b st; full_slice]).
+Proof. reflexivity. Qed.
+
+Lemma getitem_tup_contract g sy sx g' : getitem g (RTup [sy; sx]) = Ok g' ->
+  let '(y0, y1, _) := norm_bounds sy (g_ny g) in
+  let '(x0, x1, _) := norm_bounds sx (g_nx g) in
+  g_ny g' = (y1 - y0)%Z /\ g_nx g' = (x1 - x0)%Z /\ g_crs g' = g_crs g /\
+  forall p, peq (pix2wld g' p) (pix2wld g (fst p + Zq x0, snd p + Zq y0)).
+Proof.
+  unfold getitem, compute_crop. cbn [length Z.of_nat zip_norm].
+  change (2 <? Z.of_nat 2)%Z with false. cbv iota.
+  destruct (norm_bounds sy (g_ny g)) as [[y0 y1] sty].
+  destruct (norm_bounds sx (g_nx g)) as [[x0 x1] stx].
+  cbn [forallb snd].
+  destruct (negb (step_supported sty && (step_supported stx && true))); [discriminate|].
+  cbn [bind]. intros H; injection H as <-. cbn [g_ny g_nx g_crs g_A].
+  split; [reflexivity|]. split; [reflexivity|]. split; [reflexivity|].
+  intros p. unf. split; ring.
+Qed.
+
+Lemma getitem_tup_ok g sy sx :
+  let '(_, _, sty) := norm_bounds sy (g_ny g) in
+  let '(_, _, stx) := norm_bounds sx (g_nx g) in
+  step_supported sty = true -> step_supported stx = true ->
+  exists g', getitem g (RTup [sy; sx]) = Ok g'.
+Proof.
+  unfold getitem, compute_crop. cbn [length Z.of_nat zip_norm].
+  change (2 <? Z.of_nat 2)%Z with false. cbv iota.
+  destruct (norm_bounds sy (g_ny g)) as [[y0 y1] sty].
+  destruct (norm_bounds sx (g_nx g)) as [[x0 x1] stx].
+  intros H1 H2. cbn [forallb snd]. rewrite H1, H2. cbn [andb negb bind]. eexists; reflexivity.
+Qed.
+
+Lemma getitem_bad_rank g l : (2 < Z.of_nat (length l))%Z -> getitem g (RTup l) = Err EValue.
+Proof.
+  intros H. unfold getitem, compute_crop.
+  destruct (2 <? Z.of_nat (length l))%Z eqn:E; [reflexivity | apply Z.ltb_ge in E; lia].
+Qed.
+
+Lemma norm_bounds_int i n : (- n <= i < n)%Z ->
+  norm_bounds (SInt i) n = ((i mod n)%Z, (i mod n + 1)%Z, None).
+Proof.
+  intros H. unfold norm_bounds, norm_slice.
+  assert (E : (if (i <? 0)%Z then (n + i)%Z else i) = (i mod n)%Z).
+  { destruct (i <? 0)%Z eqn:E.
+    - apply Z.ltb_lt in E. apply Z.mod_unique with (q := (-1)%Z); lia.
+    - apply Z.ltb_ge in E. symmetry. apply Z.mod_small. lia. }
+  rewrite E. reflexivity.
+Qed.
+
+Lemma norm_bounds_full n : (0 <= n)%Z -> norm_bounds full_slice n = (0%Z, n, None).
+Proof.
+  intros H. unfold norm_bounds, full_slice, norm_slice, wrap_neg, fill.
+  destruct (n >=? 0)%Z eqn:E; [reflexivity | lia].
+Qed.
+
+Lemma getitem_int_contract g i : (0 <= g_nx g)%Z -> (- g_ny g <= i < g_ny g)%Z ->
+  exists g', getitem g (RInt i) = Ok g' /\
+    g_ny g' = 1%Z /\ g_nx g' = g_nx g /\ g_crs g' = g_crs g /\
+    forall p, peq (pix2wld g' p) (pix2wld g (fst p, snd p + Zq (i mod g_ny g))).
+Proof.
+  intros Hx Hi. rewrite getitem_int_is_tuple.
+  pose proof (getitem_tup_ok g (SInt i) full_slice) as Hok.
+  rewrite (norm_bounds_int i (g_ny g) Hi), (norm_bounds_full _ Hx) in Hok.
+  destruct (Hok eq_refl eq_refl) as [g' Hg]. exists g'. split; [exact Hg|].
+  pose proof (getitem_tup_contract g _ _ g' Hg) as C.
+  rewrite (norm_bounds_int i (g_ny g) Hi), (norm_bounds_full _ Hx) in C.
+  destruct C as (C1 & C2 & C3 & C4).
+  split; [lia|]. split; [lia|]. split; [exact C3|].
+  intros p. destruct (C4 p) as [E1 E2].
+  split; [rewrite E1 | rewrite E2]; unfold pix2wld, apply; cbn [fst snd];
+    change (Zq 0) with 0; ring.
+Qed.
+
+(** link with array indexing (C17): what the normalised bounds select from an axis *)
+Lemma stride_one {A} (l : list A) : stride (Some 1%Z) l = l.
+Proof.
+  unfold stride. change (Z.to_nat 1) with 1%nat.
+  induction l as [|x xs IH]; [reflexivity|]. cbn. f_equal. exact IH.
+Qed.
+
+Lemma norm_bounds_selection {A} (X : list A) a b st : step_supported st = true ->
+  let '(s, e, _) := norm_bounds (SSl a b st) (len X) in
+  (0 <= s)%Z /\ (0 <= e)%Z /\ np_get X (SSl a b st) = Some (sel X s e) /\
+  ((s <= e)%Z -> (e <= len X)%Z -> len (sel X s e) = (e - s)%Z).
+Proof.
+  intros Hst. pose proof (len_nonneg X) as Hn.
+  assert (Hok : step_ok st).
+  { destruct st as [k|]; simpl in *; [apply Z.eqb_eq in Hst; lia | exact I]. }
+  pose proof (norm_slice_same_selection X a b st Hok) as Hsel.
+  unfold norm_bounds. unfold norm_slice in *.
+  set (s := wrap_neg (len X) (fill a 0)) in *. set (e := wrap_neg (len X) (fill b (len X))) in *.
+  assert (Hs : (0 <= s)%Z) by (unfold s, wrap_neg; destruct (fill a 0 >=? 0)%Z eqn:E; lia).
+  assert (He : (0 <= e)%Z) by (unfold e, wrap_neg; destruct (fill b (len X) >=? 0)%Z eqn:E; lia).
+  split; [exact Hs|]. split; [exact He|]. split.
+  - rewrite <- Hsel. unfold np_get, py_clamp.
+    destruct (s <? 0)%Z eqn:E1; [lia|]. destruct (e <? 0)%Z eqn:E2; [lia|].
+    rewrite <- sel_clamp by assumption.
+    destruct st as [k|]; [|reflexivity].
+    simpl in Hst. apply Z.eqb_eq in Hst. subst k. rewrite stride_one. reflexivity.
+  - intros H1 H2. rewrite len_sel by assumption. lia.
+Qed.
+
+Lemma norm_bounds_int_selection {A} (X : list A) i : (- len X <= i < len X)%Z ->
+  np_get X (SInt i) = Some (sel X (i mod len X) (i mod len X + 1)) /\
+  len (sel X (i mod len X) (i mod len X + 1)) = 1%Z.
+Proof.
+  intros H. pose proof (Z.mod_pos_bound i (len X) ltac:(lia)) as Hm.
+  split.
+  - unfold np_get.
+    destruct ((- len X <=? i)%Z && (i <? len X)%Z) eqn:E.
+    + f_equal. f_equal.
+      * destruct (i <? 0)%Z eqn:E2.
+        -- apply Z.ltb_lt in E2. apply Z.mod_unique with (q := (-1)%Z); lia.
+        -- apply Z.ltb_ge in E2. symmetry. apply Z.mod_small. lia.
+      * destruct (i <? 0)%Z eqn:E2.
+        -- apply Z.ltb_lt in E2. f_equal. apply Z.mod_unique with (q := (-1)%Z); lia.
+        -- apply Z.ltb_ge in E2. f_equal. symmetry. apply Z.mod_small. lia.
+    + apply andb_false_iff in E. destruct E as [E | E]; [apply Z.leb_gt in E | apply Z.ltb_ge in E]; lia.
+  - rewrite len_sel by lia. lia.
+Qed.
+
+(** the behaviour before the F18 repair, kept as a refuted statement: an int index
+    [i] was turned into [slice(i, i+1)] *)
+Definition getitem_int_before_fix (g : geobox) (i : Z) : res geobox :=
+  getitem g (RTup [SSl (Some i) (Some (i + 1)%Z) None; full_slice]).
+
+Lemma F18_before_fix_refuted :
+  exists g i g', (- g_ny g <= i < g_ny g)%Z /\ getitem_int_before_fix g i = Ok g' /\ (g_ny g' < 0)%Z.
+Proof.
+  exists (mkG 10 20 (mkA 1 0 0 0 (-1) 0) 0), (-1)%Z.
+  eexists. split; [simpl; lia|]. split; [vm_compute; reflexivity|]. simpl. lia.
+Qed.
+
+(** centre pixel *)
+Lemma center_pixel_contract g : (1 <= g_ny g)%Z -> (1 <= g_nx g)%Z ->
+  exists g', center_pixel g = Ok g' /\
+    g_ny g' = 1%Z /\ g_nx g' = 1%Z /\ g_crs g' = g_crs g /\
+    (forall p, peq (pix2wld g' p) (pix2wld g (fst p + Zq (g_nx g / 2), snd p + Zq (g_ny g / 2)))) /\
+    Zq (g_nx g / 2) <= Zq (g_nx g) * (1 # 2) <= Zq (g_nx g / 2) + 1 /\
+    Zq (g_ny g / 2) <= Zq (g_ny g) * (1 # 2) <= Zq (g_ny g / 2) + 1.
+Proof.
+  intros Hy Hx. unfold center_pixel.
+  assert (Hiy : (- g_ny g <= g_ny g / 2 < g_ny g)%Z) by (pose proof (Z.div_mod (g_ny g) 2 ltac:(lia)); pose proof (Z.mod_pos_bound (g_ny g) 2 ltac:(lia)); lia).
+  assert (Hix : (- g_nx g <= g_nx g / 2 < g_nx g)%Z) by (pose proof (Z.div_mod (g_nx g) 2 ltac:(lia)); pose proof (Z.mod_pos_bound (g_nx g) 2 ltac:(lia)); lia).
+  assert (My : ((g_ny g / 2) mod g_ny g = g_ny g / 2)%Z) by (apply Z.mod_small; lia).
+  assert (Mx : ((g_nx g / 2) mod g_nx g = g_nx g / 2)%Z) by (apply Z.mod_small; lia).
+  pose proof (getitem_tup_ok g (SInt (g_ny g / 2)) (SInt (g_nx g / 2))) as Hok.
+  rewrite (norm_bounds_int _ _ Hiy), (norm_bounds_int _ _ Hix) in Hok.
+  destruct (Hok eq_refl eq_refl) as [g' Hg]. exists g'. split; [exact Hg|].
+  pose proof (getitem_tup_contract g _ _ g' Hg) as C.
+  rewrite (norm_bounds_int _ _ Hiy), (norm_bounds_int _ _ Hix), My, Mx in C.
+  destruct C as (C1 & C2 & C3 & C4).
+  split; [lia|]. split; [lia|]. split; [exact C3|]. split; [exact C4|].
+  pose proof (Z.div_mod (g_ny g) 2 ltac:(lia)) as Dy. pose proof (Z.mod_pos_bound (g_ny g) 2 ltac:(lia)) as By.
+  pose proof (Z.div_mod (g_nx g) 2 ltac:(lia)) as Dx. pose proof (Z.mod_pos_bound (g_nx g) 2 ltac:(lia)) as Bx.
+  assert (Ey : Zq (g_ny g) == 2 * Zq (g_ny g / 2) + Zq (g_ny g mod 2)).
+  { rewrite Dy at 1. rewrite Zq_plus, Zq_mult. reflexivity. }
+  assert (Ex : Zq (g_nx g) == 2 * Zq (g_nx g / 2) + Zq (g_nx g mod 2)).
+  { rewrite Dx at 1. rewrite Zq_plus, Zq_mult. reflexivity. }
+  assert (Ry : 0 <= Zq (g_ny g mod 2) <= 1).
+  { split; [change 0 with (Zq 0) | change 1 with (Zq 1)]; apply Zq_le1; lia. }
+  assert (Rx : 0 <= Zq (g_nx g mod 2) <= 1).
+  { split; [change 0 with (Zq 0) | change 1 with (Zq 1)]; apply Zq_le1; lia. }
+  repeat split; lra.
 Qed.
